@@ -8,8 +8,8 @@
      GD <p>                   let the parked DELETE of p proceed (after the last one: retain + retention)
      GP                       let the cycle run to its end (remaining deletes, retain, retention, persist)
      G                        = GF ; GP
-     RS                       compactor restart: a cycle in flight is lost; load the file; begin the
-                              first cycle of `run`
+     RS                       compactor restart: a cycle in flight is lost; load the file (the harness
+                              always sends GF next: `run` starts its first cycle at once)
      PQ <q> <s> <e>           query q: get_chunks(s,e) on the current catalog, pin the result
      P <q> <p,p,...>          query q with a given (possibly stale) chunk list: pin it
      U <q>                    query q reads its files and drops its pin guard
@@ -78,7 +78,7 @@ let run_line (line : string) : string =
           if !is_open && !s.gc_active && memN p !s.gcsel then begin s := drv_delete c !s p; "d" end else "skip"
       | ["GP"] -> if !is_open then begin finish (); observe () end else "-"
       | ["G"] -> begin_cycle (); finish (); observe ()
-      | ["RS"] -> is_open := false; s := drv_restart c !s; is_open := true; "-"
+      | ["RS"] -> is_open := false; st Restart; st Load; "-"
       | ["PQ"; q; a; b] ->
           let q = n_of_string q in
           let fresh = not (amem (fun a b -> a = b) q !s.queries) in
